@@ -46,6 +46,8 @@ pub fn run(ctx: &mut Ctx) {
     lap(ctx, "roundtrips");
     foreign(ctx);
     lap(ctx, "foreign");
+    lexical_attrs(ctx);
+    lap(ctx, "lexical_attrs");
     failing_sinks(ctx);
     lap(ctx, "failing_sinks");
     crate::c09_deltas::delta_chain(ctx);
@@ -481,6 +483,122 @@ fn foreign(ctx: &mut Ctx) {
     let _ = (hex(&[]), Tier::Quick);
 }
 
+
+//------------ attribute values in other lexical forms ------------------------
+
+/// The spans (start, end) of attribute values in a document written by the
+/// harness (plain style: `name="value"`), with the attribute's name.
+fn attr_spans(doc: &[u8]) -> Vec<(String, usize, usize)> {
+    let mut v = Vec::new();
+    let mut i = 0;
+    while i + 1 < doc.len() {
+        if doc[i] == b'=' && (doc[i + 1] == b'"' || doc[i + 1] == b'\'') {
+            let q = doc[i + 1];
+            let start = i + 2;
+            if let Some(len) = doc[start..].iter().position(|b| *b == q) {
+                let mut n = i;
+                while n > 0 && (doc[n - 1].is_ascii_alphanumeric() || doc[n - 1] == b'_' || doc[n - 1] == b':') {
+                    n -= 1;
+                }
+                v.push((String::from_utf8_lossy(&doc[n..i]).into_owned(), start, start + len));
+                i = start + len + 1;
+                continue;
+            }
+        }
+        i += 1;
+    }
+    v
+}
+
+/// Valid documents whose attribute values are re-spelled: characters written
+/// as numeric character references (the same character: an XML reader sees
+/// the same value), references to characters of 2, 3 and 4 UTF-8 octets put
+/// in place of as many ASCII characters (so every fixed-length check still
+/// sees the expected number of octets, at every offset of `hash`,
+/// `session_id` and the other attributes), raw non-ASCII octets, and
+/// predefined entities. The statement asks for an error or a value, never a
+/// panic; whether a same-character reference is read as the character is
+/// recorded.
+fn lexical_attrs(ctx: &mut Ctx) {
+    let tiny = ctx.stage == Stage::Miri;
+    if tiny && ctx.shard != 0 {
+        return;
+    }
+    let rounds = crate::c09_io::budget(ctx, (9, 120), 9, (1, 2));
+    let mut rng = ctx.rng("lexical-attrs");
+    let st = Style::plain();
+    let wide: [(u32, usize); 6] = [(0xE9, 2), (0x100, 2), (0x4E2D, 3), (0x212A, 3), (0x1F600, 4), (0x10FFFF, 4)];
+    for round in 0..rounds {
+        let kind = Kind::ALL[(round % 3) as usize];
+        let plan = SizePlan { max_elements: if tiny { 1 } else { 3 }, data_cap: 40, long_uris: false };
+        let doc = match kind {
+            Kind::Notification => g::write_notif(&g::gen_notif(&mut rng, &plan), &st, &mut rng).bytes,
+            Kind::Snapshot => g::write_snap(&g::gen_snap(&mut rng, &plan), &st, &mut rng).bytes,
+            Kind::Delta => g::write_delta(&g::gen_delta(&mut rng, &plan), &st, &mut rng).bytes,
+        };
+        let baseline = l::parse_kind(kind, l::Via::Owned, &doc[..]).is_ok();
+        if !baseline {
+            ctx.obs("lexical_baseline_document_rejected", 1);
+            continue;
+        }
+        let spans = attr_spans(&doc);
+        let mut variants: Vec<(String, &'static str, Vec<u8>)> = Vec::new();
+        for (name, a, b) in &spans {
+            let len = b - a;
+            let offsets: Vec<usize> = if tiny { vec![0, len / 2] } else if len <= 70 { (0..len).collect() } else { (0..len).step_by(len / 40 + 1).collect() };
+            for &o in &offsets {
+                let c = doc[a + o];
+                if c == b'&' {
+                    continue;
+                }
+                let splice = |from: usize, to: usize, with: &[u8]| -> Vec<u8> {
+                    let mut d = doc[..from].to_vec();
+                    d.extend_from_slice(with);
+                    d.extend_from_slice(&doc[to..]);
+                    d
+                };
+                // the same character as a reference (hex and decimal)
+                variants.push((name.clone(), "same-char-hex-ref", splice(a + o, a + o + 1, format!("&#x{:X};", c).as_bytes())));
+                if o % 3 == 0 {
+                    variants.push((name.clone(), "same-char-dec-ref", splice(a + o, a + o + 1, format!("&#{};", c).as_bytes())));
+                }
+                // w ASCII characters replaced by one character of w octets, as a reference and raw
+                for (cp, w) in wide {
+                    if o + w > len || (o + w as usize + cp as usize) % 2 == 1 && !tiny && len > 40 && w == 4 {
+                        continue;
+                    }
+                    variants.push((name.clone(), "wide-char-ref-keeping-octet-length", splice(a + o, a + o + w, format!("&#x{:X};", cp).as_bytes())));
+                    if o % 5 == 0 {
+                        let raw = char::from_u32(cp).unwrap_or('\u{E9}').to_string();
+                        variants.push((name.clone(), "wide-char-raw-keeping-octet-length", splice(a + o, a + o + w, raw.as_bytes())));
+                    }
+                }
+                if o % 7 == 0 {
+                    variants.push((name.clone(), "entity-inserted", splice(a + o, a + o, *rng.pick(&[&b"&amp;"[..], b"&lt;", b"&quot;", b"&apos;", b"&gt;", b"&#0;", b"&#xD800;", b"&#x110000;", b"&;", b"&#;", b"&#x;"]))));
+                }
+            }
+        }
+        if tiny {
+            // a parse costs tens of milliseconds in the interpreter
+            let keep: Vec<usize> = (0..variants.len()).step_by(variants.len() / 24 + 1).collect();
+            variants = keep.into_iter().map(|i| variants[i].clone()).collect();
+        }
+        for (name, what, d) in variants {
+            for via in [l::Via::Owned, l::Via::Alt] {
+                let r = ctx.no_panic(
+                    &format!("parse-lexical-attr:{}:{}", kind.name(), name),
+                    || json!({"kind": kind.name(), "attribute": name, "respelling": what, "doc": String::from_utf8_lossy(&d)}),
+                    || l::parse_kind(kind, via, &d[..]).is_ok(),
+                );
+                ctx.eval();
+                if let Some(ok) = r {
+                    ctx.obs(&format!("lexical_{}_{}", what, if ok { "accepted" } else { "rejected" }), 1);
+                    ctx.sig(&format!("lexical {} @{} {} {}", kind.name(), name, what, if ok { "accepted" } else { "rejected" }));
+                }
+            }
+        }
+    }
+}
 
 //------------ short writes ---------------------------------------------------
 
